@@ -907,19 +907,29 @@ class Merger:
         # Merge into each insertion point
         merge_performed = False
         lhs_proc = Processor(self.logger, self.data)
-        merged_targets: List[Any] = []
+        merged_targets: List[Tuple[Any, NodeCoords]] = []
         for node_coord in self._get_merge_target_nodes(
             insert_at, lhs_proc, rhs
         ):
             target_node = node_coord.node
-            if (isinstance(target_node, (CommentedMap, CommentedSeq,
-                                         CommentedSet))
-                    and any(target_node is done for done in merged_targets)):
-                # The same Hash, Array, or Set reached again through an
-                # Alias:  it has had its merge (a second one would feed the
-                # result into itself)
-                continue
-            merged_targets.append(target_node)
+            if isinstance(target_node, (CommentedMap, CommentedSeq,
+                                        CommentedSet)):
+                first_place = None
+                for (done_node, done_coord) in merged_targets:
+                    if target_node is done_node:
+                        first_place = done_coord
+                        break
+                if first_place is not None:
+                    # The same Hash, Array, or Set reached again (through an
+                    # Alias, say):  it has had its merge -- a second one would
+                    # feed the result into itself -- so this place receives
+                    # what the first merge left at its own.
+                    if (node_coord.parent is not None
+                            and first_place.parent is not None):
+                        node_coord.parent[node_coord.parentref] = (
+                            first_place.parent[first_place.parentref])
+                    continue
+                merged_targets.append((target_node, node_coord))
             Parsers.set_flow_style(
                 rhs, (target_node.fa.flow_style()
                       if hasattr(target_node, "fa")
